@@ -474,7 +474,7 @@ def _cache_path(case):
     h = hashlib.sha256()
     h.update(core.repo_fingerprint().encode())
     h.update(json.dumps(case, sort_keys=True, default=str).encode())
-    h.update(b"obs-v5")
+    h.update(b"obs-v6")
     d = core.VERIF / ".cache" / "s2d"
     d.mkdir(parents=True, exist_ok=True)
     return d / (h.hexdigest()[:24] + ".json.gz")
@@ -679,6 +679,79 @@ def _top_flux(case, res, dt, inuc):
     return out
 
 
+def _bottom_flux(case, res, dt, inuc):
+    """Heat flux applied at the bottom surface, inferred from two consecutive recorded fields by
+    inverting the update of the bottom(-centre) node (both stages, 1D and 2D), against the
+    boundary condition of the model: K_shelf*(T_shelf - T_bottom) with the shelf value of the step."""
+    const = res["const"]
+    dim = const["dimensionality"]
+    if dim == "homogeneous":
+        return None
+    T = res["temp"] + 273.15
+    w = res["ice"]
+    shelf = res["shelf"] + 273.15
+    n = T.shape[0]
+    time_s = res["time"] * 3600.0
+    Nz, Nr = 30, 15
+    dz = const["height"] / Nz
+    sf = const["solid_fraction"]
+    k0 = sf * const["lambda_s"] + (1 - sf) * const["lambda_w"]
+    rho = const["rho_l"]
+    a = k0 / (const["cp_solution"] * rho) * dt
+    Tm = const["T_eq"] + 273.15
+    Teql = Tm - const["depression"]
+    two_d = dim == "spatial_2D"
+    if two_d:
+        dr = (const["diameter"] / 2) / Nr
+        bot = lambda F: F[:, 0, 0]
+        above = lambda F: F[:, 1, 0]
+        side = lambda F: F[:, 0, 1]
+    else:
+        bot = lambda F: F[:, 0]
+        above = lambda F: F[:, 1]
+    c, u = bot(T)[:-1], above(T)[:-1]
+    c1 = bot(T)[1:]
+    wc, wu = bot(w)[:-1], above(w)[:-1]
+    ks = np.arange(1, n)
+    one = np.abs((time_s[1:] - time_s[:-1]) - dt) <= 1e-6 * dt
+    if inuc < n:
+        one[inuc - 1] = False
+        if inuc < n - 1:
+            one[inuc] = True
+    solid = ks > inuc
+    rad_c = (2 * ((side(T)[:-1] - 2 * c) + c) / dr ** 2) if two_d else 0.0
+    b_cool = ((c1 - c) / a - rad_c) * dz ** 2 + 2 * c - u
+    q_cool = (b_cool - c) * k0 / dz
+    cp = const["cp_s"] * sf + const["cp_i"] * wc + const["cp_w"] * (1 - sf - wc)
+    kc = const["lambda_i"] * wc + const["lambda_w"] * (1 - wc)
+    ku = const["lambda_i"] * wu + const["lambda_w"] * (1 - wu)
+    beta = const["Dh"] * const["k_f"] * const["mass_solute"] / (const["M_s"] * rho * const["V"] * cp)
+    with np.errstate(divide="ignore", invalid="ignore"):
+        B = np.where(c < Teql, 1 + beta / (c - Tm) ** 2, 1.0)
+        pre = dt / (cp * rho)
+        ssum = (c1 - c) * B / pre
+        if two_d:
+            o = side(T)[:-1]
+            ko = const["lambda_i"] * side(w)[:-1] + const["lambda_w"] * (1 - side(w)[:-1])
+            ssum = ssum - (2 * kc * ((o - 2 * c) + c) / dr ** 2 + (ko - kc) * (o - c) / (4 * dr ** 2))
+        cb = -(ku - kc) / (4 * dz ** 2) + kc / dz ** 2
+        rest = (ku - kc) * u / (4 * dz ** 2) + kc * (u - 2 * c) / dz ** 2
+        b_sol = (ssum - rest) / cb
+        q_sol = (b_sol - c) * kc / dz
+    q_app = np.where(solid, q_sol, q_cool)
+    q_exp = case["K_shelf"] * (shelf[1:] - c)
+    ok = one & np.isfinite(q_app)
+    if not ok.any():
+        return {"n": 0}
+    dev = np.where(ok, np.abs(q_app - q_exp), 0.0)
+    tol = 1e-2 + 1e-6 * np.abs(q_exp)
+    score = dev / tol
+    j = int(np.argmax(score))
+    return {"n": int(ok.sum()), "worst_dev": float(dev[j]), "score": float(score[j]), "row": int(ks[j]),
+            "stage": "solidification" if solid[j] else "cooling", "q_applied": float(q_app[j]),
+            "q_expected": float(q_exp[j]), "T_bottom": float(c[j]), "T_shelf": float(shelf[1:][j])}
+
+
 def observe(case, use_cache=True):
     """the shared observation of one real run"""
     p = _cache_path(case)
@@ -715,6 +788,7 @@ def observe(case, use_cache=True):
             obs["radial"] = _radial_summary(res, inuc)
             obs["evap"] = _evap_inferred(case, res, dt, inuc)
             obs["topflux"] = None if strided else _top_flux(case, res, dt, inuc)
+            obs["botflux"] = None if strided else _bottom_flux(case, res, dt, inuc)
             stride = int(case.get("outStride", 1))
             rows = keep_rows(n, min(inuc, n - 1), stride)
             obs["iSaveEnd"] = min(inuc, n - 1)
@@ -780,6 +854,11 @@ def standard_cases(tier, seed=0):
         _base("VISF", 0.01, 0.04, 1000, 200, dim="spatial_1D",
               visf=dict(t_vac_start=60 / 3600, t_vac_duration=60 / 3600)),
         _base("VISF", 0.01, 0.04, 1000, 200, visf=dict(t_vac_start=2 / 3600, t_vac_duration=15 / 3600)),
+        # solvents whose melting point is not 0 C (both signs): T_m enters the latent-heat term
+        _base("shelf", 0.01, 0.04, 1000, 200, solution={"T_eq": -1.0}),
+        _base("jacket", 0.015, 0.03, 1000, 350, solution={"T_eq": 0.8}),
+        # coarse-grid Biot number K_shelf*dz/lambda > 1 in 1D (the 2D sibling is the 20 x 60 mm case above)
+        _base("shelf", 0.02, 0.06, 2000, 600, dim="spatial_1D"),
     ]
     n_rand = 3 if tier == "quick" else 14
     if tier != "quick":
@@ -787,7 +866,8 @@ def standard_cases(tier, seed=0):
             _base("jacket", 0.02, 0.012, 1000, 300, jacket=dict(air_gap=1e-5, lambda_air=0.025)),
             _base("VISF", 0.03, 0.03, 2000, 900),
             _base("jacket", 0.01, 0.04, 1000, 200, jacket=dict(air_gap=1e-5, lambda_air=0.025)),
-            _base("shelf", 0.02, 0.06, 2000, 600, dim="spatial_1D"),
+            _base("VISF", 0.01, 0.04, 1000, 200, solution={"T_eq": -1.5}),
+            _base("shelf", 0.01, 0.04, 1000, 200, dim="spatial_1D", solution={"T_eq": -1.0}),
         ]
     if source_has_cn_fix():
         # controlled nucleation (the model has the repaired test `T_k.min() <= cnTemp`, F4)
